@@ -17,11 +17,15 @@ RULE = ("definitions with 1-2 sensors of 1-3 readings (pairwise distinct per-rea
         "fixed stream: readings that depend on the sign of a state (bearing atan2, sqrt(x^2), sqrt((y-w)^2), log(x^2)) at estimates in all four "
         "quadrants, CSE on and off; "
         "fixed stream: noise table listing the sensors (and readings) in another insertion order than the sensor table, sensors with the same "
-        "and with different reading names")
+        "and with different reading names; "
+        "fixed stream: the same integer-valued SPD priors handed over as int64 / int32 / float32 / float64 / Fortran-ordered arrays, sensors "
+        "of 1, 2 and 3 readings, one update and a chain of two updates (the posterior object fed back as the next prior)")
 NOTE = ["oracle: exact Fractions recomputation of S, K, x', P' from sympy h and dh/dx by name and the per-reading noise supplied by name",
         "the Lean model checks its own Gauss-Jordan inverse (S*Sinv = 1) before using it",
         "sign-dependent readings: h and dh/dx are those of the expression as written, evaluated at the (negative) estimate by sympy",
-        "noise-table order: Q of a sensor is built from the entries supplied under that sensor's key, whatever the order of the table"]
+        "noise-table order: Q of a sensor is built from the entries supplied under that sensor's key, whatever the order of the table",
+        "prior element type: the prior is the matrix of VALUES the caller supplied; the posterior is P - K H P of those values (generally "
+        "not integers), whatever the element type / memory order of the array they arrived in"]
 PARTIAL = ["binary64 rounding (1e-9 relative tolerance); numpy.linalg.inv is outside the model"]
 
 
@@ -41,9 +45,11 @@ def oracle_update(d, rd, noise, sub, P, x, z):
     return {"H": H, "hx": hx, "S": S, "K": K, "y": [r[0] for r in y], "x": xn, "P": Pn, "nis": nis, "Lr": Lr}
 
 
-def one_update_against_oracle(ctx, d, ekf, sensor, key, pt, z, reading_obj, tag, P=None):
+def one_update_against_oracle(ctx, d, ekf, sensor, key, pt, z, reading_obj, tag, P=None, cov=None, state=None, extra=None):
     """one sensor update of `ekf` at `pt` with reading values `z` (passed as `reading_obj`) against the exact Kalman update
-    (`P`: a fixed prior covariance; drawn from ctx.rng when not given)"""
+    (`P`: a fixed prior covariance; drawn from ctx.rng when not given; `cov` / `state`: ready-made Covariance / State objects holding
+    the values of `P` / `pt` to pass instead of the ones built here; `extra`: more entries for the reported case).
+    Returns (result of sensor_model, oracle) when the call went through, None otherwise."""
     Ls = sorted(s.name for s in d.state)
     rd = d.sensors[key]
     Lr = sorted(rd)
@@ -54,13 +60,16 @@ def one_update_against_oracle(ctx, d, ekf, sensor, key, pt, z, reading_obj, tag,
     want = oracle_update(d, rd, sensor[key], sub, P, x, z)
     case = {"def": d.describe(), "sensor": key, "noise": {r: str(v) for r, v in sensor[key].items()}, "point": eh.point_json(pt),
             "P": eh.mat_json(P), "z": {r: core.frac_str(F(v)) for r, v in z.items()}, "stream": tag}
+    case.update(extra or {})
     ctx.case(case, True); ctx.count(f"stream={tag}")
     try:
         with fk.quiet():
-            res = ekf.sensor_model(eh.state_obj(ekf, pt), eh.cov_obj(ekf, P), sensor_key=key, sensor_reading=reading_obj)
+            res = ekf.sensor_model(eh.state_obj(ekf, pt) if state is None else state, eh.cov_obj(ekf, P) if cov is None else cov,
+                                   sensor_key=key, sensor_reading=reading_obj)
+        gx = fk.by_name(res.state)
+        np.asarray(res.covariance.data, dtype=float)
     except Exception as e:
         ctx.fail(f"sensor-model-raises:{fk.exc_kind(e)}:{tag}", f"sensor_model raises {e!r}"[:300], case); return
-    gx = fk.by_name(res.state)
     sc = max([abs(float(v)) for v in want["x"]] + [1.0])
     if key not in ekf.innovations or key not in ekf.sensor_prediction_uncertainty:
         ctx.fail(f"update-innovation:not-recorded:{tag}", "after the update the filter holds no innovation / innovation covariance for this sensor", case)
@@ -74,7 +83,9 @@ def one_update_against_oracle(ctx, d, ekf, sensor, key, pt, z, reading_obj, tag,
     elif not all(core.close(gx[n], w, scale=sc) for n, w in zip(Ls, want["x"])):
         ctx.fail(f"update-state:{tag}", f"updated state {gx} differs from x + K (z - h(x)) = {dict(zip(Ls, map(float, want['x'])))}", case)
     elif not eh.mat_close(res.covariance.data, want["P"]):
-        ctx.fail(f"update-cov:{tag}", "updated covariance differs from P - K H P", case)
+        ctx.fail(f"update-cov:{tag}", f"updated covariance {np.asarray(res.covariance.data, dtype=float).tolist()} differs from P - K H P = "
+                 f"{[[float(v) for v in r] for r in want['P']]}"[:600], case)
+    return res, want
 
 
 def later_filters_and_own_readings(ctx):
@@ -230,6 +241,67 @@ def sensor_tables_in_different_orders(ctx):
                                           f"noise-table-order:{label}", P=P)
 
 
+def priors_of_any_element_type(ctx):
+    """fixed stream: a covariance is a matrix of values; the array the caller wraps in Covariance.from_data may hold them as int64
+    (np.diag([4, 9, 2]), np.array of Python ints), int32, float32, float64 or in Fortran order.  Integer-valued SPD priors (exactly
+    representable in every one of those types) spelled each way, sensors of 1, 2 and 3 readings (linear, bilinear, with a calibration),
+    one update each, and then a chain: the posterior OBJECT the filter returned is fed back as the prior of the next sensor's update
+    (oracle: exact fold of the two Kalman updates)."""
+    import random
+    own = random.Random(50581)
+    a, b, c, k, dt = sympy.symbols("qa qb qc kk dt")
+    sensors = {"one": {"r": a - 2 * b + k}, "two": {"u": a * b + c, "w": b - c}, "three": {"f": a + k * c, "g": b, "h": a - b + 3 * c}}
+    noise = {"one": {"r": F(3, 2)}, "two": {"u": F(1, 2), "w": F(5, 4)}, "three": {"f": F(2), "g": F(3, 4), "h": F(7, 4)}}
+    priors = {"diag": [[F(4), F(0), F(0)], [F(0), F(9), F(0)], [F(0), F(0), F(2)]],
+              "full": [[F(4), F(1), F(0)], [F(1), F(9), F(-2)], [F(0), F(-2), F(5)]]}
+    spell = {"int64": lambda M: np.array([[int(v) for v in r] for r in M], dtype=np.int64),
+             "int32": lambda M: np.array([[int(v) for v in r] for r in M], dtype=np.int32),
+             "float32": lambda M: np.array([[float(v) for v in r] for r in M], dtype=np.float32),
+             "float64": lambda M: np.array([[float(v) for v in r] for r in M], dtype=np.float64),
+             "fortran-float64": lambda M: np.asfortranarray(np.array([[float(v) for v in r] for r in M], dtype=np.float64))}
+    cal = {"kk": F(3, 2)}
+    d = gen.Definition(dt, [a, b, c], [], [k], {a: a + dt * b, b: b, c: c}, {key: dict(rd) for key, rd in sensors.items()})
+    try:
+        ekf = eh.compile_ekf(d, {}, noise, cal, own, cse=True)
+    except Exception as e:
+        ctx.fail(f"compile-ekf-raises:{fk.exc_kind(e)}:prior-element-type", f"compile_ekf refuses a valid definition: {e!r}"[:300], {"def": d.describe()})
+        return
+    Ls = sorted(s.name for s in d.state)
+    pt = {"dt": F(1, 8), "cal": cal, "control": {}, "state": {"qa": F(3, 2), "qb": F(-5, 4), "qc": F(1, 2)}}
+
+    def reading(key, at, off):
+        Lr = sorted(d.sensors[key])
+        hx = eh.oracle_vals(d.sensors[key], Lr, eh.subs_map(d, at))
+        z = {r: F(h) + off * (j + 1) for j, (r, h) in enumerate(zip(Lr, hx))}
+        return z, ekf.make_reading(key, **{r: float(v) for r, v in z.items()})
+
+    for pname, P in priors.items():
+        # the state names are sorted the same way in the oracle and in the filter's Covariance (both by name); the priors are used as given
+        for sname, mk in spell.items():
+            for key in sensors:
+                for off in (F(0), F(3, 8)):
+                    try:
+                        cov = ekf.Covariance.from_data(mk(P))
+                    except Exception as e:
+                        ctx.fail(f"covariance-from-data-raises:{fk.exc_kind(e)}:{sname}", f"Covariance.from_data refuses a valid covariance: {e!r}"[:300],
+                                 {"P": eh.mat_json(P), "element_type": sname})
+                        continue
+                    z, zobj = reading(key, pt, off)
+                    ctx.count(f"prior_element_type:{sname}")
+                    out = one_update_against_oracle(ctx, d, ekf, noise, key, pt, z, zobj, f"prior-element-type:{sname}", P=P, cov=cov,
+                                                    extra={"prior_array": sname, "prior": pname})
+                    if out is None or off == 0 or key == "three":
+                        continue
+                    # chain: what the filter returned is the estimate the next update starts from
+                    res, want = out
+                    nxt = {"one": "two", "two": "three"}[key]
+                    pt2 = dict(pt, state=dict(zip(Ls, want["x"])))
+                    z2, zobj2 = reading(nxt, pt2, F(-1, 4))
+                    ctx.count(f"prior_element_type_chain:{sname}")
+                    one_update_against_oracle(ctx, d, ekf, noise, nxt, pt2, z2, zobj2, f"prior-element-type-chain:{sname}", P=want["P"],
+                                              cov=res.covariance, state=res.state, extra={"prior_array": sname, "prior": pname, "after_update_of": key})
+
+
 def run(ctx, focus="C05"):
     audit = core.lean_audit("C05")
     drv = core.Driver()
@@ -323,6 +395,7 @@ def run(ctx, focus="C05"):
         tol = core.DEFAULT_TOL
         readings_that_depend_on_a_sign(ctx)            # fixed inputs, private random streams: nothing is drawn from ctx.rng
         sensor_tables_in_different_orders(ctx)
+        priors_of_any_element_type(ctx)
         core.DEFAULT_TOL = tol                         # the comparisons below keep the tolerance they had before these two streams
     ans = drv.run()
     for idx, gx, gP, gS, gy, info in pending:
